@@ -260,9 +260,12 @@ def run(prog: Program, rep, thorough: bool) -> None:
 
     # ---- R3 ------------------------------------------------------------------------------------
     searched: List[object] = []
+    searched_dist: List[object] = []
 
     def za_hook(ev_, func, args, kwargs, st, self_val):
         searched.append((args[0] if args else kwargs.get(func.positional[1]), dict(st.heap)))
+        dist_ = args[1] if len(args) > 1 else kwargs.get(func.positional[2])
+        searched_dist.append(C.raw_of(ev_, st, dist_) if isinstance(dist_, Inst) else dist_)
         return C.mk_quantity(ev_, st, prog, 'Angular', 'E', 'Radian')
     ev = Evaluator(prog, hooks={'call:TrajectoryCalc.zero_angle': za_hook, **C.pref_hooks(prog)})
     st = State()
@@ -282,6 +285,18 @@ def run(prog: Program, rep, thorough: bool) -> None:
         be = ev.getattr(shot, 'barrel_elevation', st, Ctx(prog.module(C.M_COND), None, None, 0))
     except Undecided as exc:
         raise AnalysisError(f'set_weapon_zero round trip: {exc}') from exc
+    # the distance searched for is the look-distance given (zero_angle itself takes cos / sin of the look angle, R4)
+    want_d = C.read_raw_in(ev, prog, 'Distance', 'D', 'Inch') if False else A.sym('D')
+    bad_d = [d_ for d_ in searched_dist if not (isinstance(d_, A.RF) and d_.equals(want_d))]
+    if not searched_dist:
+        raise AnalysisError('set_weapon_zero does not reach zero_angle in the abstract evaluation')
+    if bad_d:
+        rep.fail('C02.R3', prog.module(C.M_IF).path, bet.node.lineno, bet.qualname, 'searched-distance',
+                 f'the zero is searched for the distance {bad_d[0]!r} (raw), not for the look-distance given ({want_d!r}): zero_angle '
+                 f'already places the aim point at (cos(look) d, sin(look) d), so the shot is zeroed for another distance whenever the '
+                 f'sight line is inclined')
+    else:
+        rep.ok('C02.R3', bet.where, 'the zero is searched for the look-distance given')
     # the shot searched on is the caller's shot - or a copy that agrees with it in everything the zero depends on
     for sv, heap_ in searched:
         if isinstance(sv, Inst) and sv.oid == shot.oid:
